@@ -7,6 +7,7 @@ import (
 	"encoding/json"
 	"fmt"
 	"hash/fnv"
+	"io"
 	"net"
 	"net/http"
 	"net/http/httptest"
@@ -279,7 +280,11 @@ func (h *harness) respond(where string) fox.HandlerFunc {
 		c.QueryParams().Set("mut", e.tok) // the values of this request are the handler's to edit
 		c.SetHeader("X-Resp", e.tok)
 		c.Writer().WriteHeader(e.status)
-		_, _ = c.Writer().Write([]byte(strings.Repeat("b", e.size)))
+		if e.size%2 == 1 {
+			_, _ = io.WriteString(c.Writer(), strings.Repeat("b", e.size))
+		} else {
+			_, _ = c.Writer().Write([]byte(strings.Repeat("b", e.size)))
+		}
 		if w := c.Writer(); w.Status() != e.status || w.Size() != e.size || !w.Written() {
 			h.fail("%s [token %s]: after writing status=%d and %d bytes the writer reports status=%d size=%d written=%v", where, e.tok, e.status, e.size, w.Status(), w.Size(), w.Written())
 		}
@@ -539,7 +544,12 @@ func (h *harness) run(s Step, tok string, n int) {
 		_ = b.Close()
 		return
 	}
-	h.f.ServeHTTP(rec, req)
+	if n%4 < 2 {
+		// a server-side writer that offers nothing beyond the three methods of http.ResponseWriter
+		h.f.ServeHTTP(plainW{rec}, req)
+	} else {
+		h.f.ServeHTTP(rec, req)
+	}
 	res := rec.Result()
 	if e.size >= 0 {
 		if rec.Code != e.status || rec.Body.Len() != e.size || res.Header.Get("X-Resp") != tok {
@@ -556,6 +566,13 @@ func (h *harness) run(s Step, tok string, n int) {
 		}
 	}
 }
+
+// plainW hides every optional interface of the writer it wraps.
+type plainW struct{ w http.ResponseWriter }
+
+func (p plainW) Header() http.Header         { return p.w.Header() }
+func (p plainW) Write(b []byte) (int, error) { return p.w.Write(b) }
+func (p plainW) WriteHeader(code int)        { p.w.WriteHeader(code) }
 
 // hijackable is a recorder whose connection can be taken over.
 type hijackable struct {
